@@ -206,6 +206,23 @@ def sample_ls(key, k):
     return sorted(set(rng.sample(range(1, LMAX + 1), k)) | {1, 2, 3, 4})
 
 
+KEEP_PER_CLASS = 6
+
+
+def ORDER(f):
+    return (len(f['input']['markdown']), f['input']['markdown'], f['input']['L'] or 0, f['key'])
+
+
+def _trim(v, n=3000):
+    if isinstance(v, str):
+        return v if len(v) <= n else v[:n] + '...[%d chars]' % len(v)
+    if isinstance(v, dict):
+        return {k: _trim(w, n) for k, w in v.items()}
+    if isinstance(v, list):
+        return [_trim(w, n) for w in v[:20]]
+    return v
+
+
 def failure(x, L, contract, cls, observed, expected, name, gen):
     return {'key': '%s|%r|L=%d' % (contract, x, L), 'contract': contract, 'class': cls,
             'input': {'markdown': x, 'L': L, 'source': name}, 'observed': observed, 'expected': expected,
@@ -244,7 +261,7 @@ def shrink_one(f):
 def work(chunk):
     res = {'evaluations': 0, 'contract_evaluations': 0, 'failures': [], 'samples': [],
            'nontrivial': 0, 'failing_cases': 0, 'excluded': 0, 'docs': 0, 'maxdepth': 0,
-           }
+           'class_counts': {}, 'keep': {}}
     for case in chunk:
         kind, ident, ls = case[0], case[1], case[2]
         if kind == 'stack':
@@ -259,6 +276,7 @@ def work(chunk):
         ref = Ref(x)
         if not ref.ok:
             res['failing_cases'] += 1
+            res['class_counts']['noraise|exception'] = res['class_counts'].get('noraise|exception', 0) + 1
             res['failures'].append({'key': 'noraise|%r|L=None' % x, 'contract': 'noraise', 'class': 'exception',
                                     'input': {'markdown': x, 'L': None, 'source': name},
                                     'observed': ref.err, 'expected': 'no exception', 'replay': ''})
@@ -276,8 +294,18 @@ def work(chunk):
                 res['nontrivial'] += 1
             for contract, observed, expected in bad:
                 res['failing_cases'] += 1
-                res['failures'].append(failure(x, L, contract, classify(ref, L, contract, observed, out),
-                                               observed, expected, name, (kind, ident) if tree is not None else None))
+                cls = classify(ref, L, contract, observed, out)
+                c = '%s|%s' % (contract, cls)
+                res['class_counts'][c] = res['class_counts'].get(c, 0) + 1
+                keep = res['keep'].setdefault(c, [])
+                keep.append(failure(x, L, contract, cls, _trim(observed), _trim(expected), name,
+                                    (kind, ident) if tree is not None else None))
+                if len(keep) > 2 * KEEP_PER_CLASS:      # bound the memory: the smallest inputs stay
+                    keep.sort(key=ORDER)
+                    del keep[KEEP_PER_CLASS:]
+    for keep in res.pop('keep').values():
+        keep.sort(key=ORDER)
+        res['failures'].extend(keep[:KEEP_PER_CLASS])
     return res
 
 
@@ -294,7 +322,7 @@ def run(tier, seed, workers):
         stacks += [s + (i,) for s in stacks if len(s) == d for i in range(len(mdgen.STACK_PREFIXES))]
     cases += [('stack', s, stack_ls) for s in stacks]
     # generated documents: small set x (all L | a seeded third), big set x sampled L
-    n_small, n_big, k_big = (260, 1200, 6) if quick else (6000, 60000, 8)
+    n_small, n_big, k_big = (260, 1200, 6) if quick else (4000, 40000, 8)
     full = full_ls(tier, seed)
     for i in range(n_small):
         cases.append(('reflow' if i % 2 == 0 else 'reflowfree', base + i, full))
@@ -305,16 +333,18 @@ def run(tier, seed, workers):
     parts = pool_map(work, chunks, workers)
     out = {k: 0 for k in ('evaluations', 'contract_evaluations', 'failing_cases', 'excluded', 'docs',
                           'nontrivial')}
-    failures, samples, maxdepth = {}, [], 0
+    failures, samples, maxdepth, classes = {}, [], 0, {}
     for p in parts:
         for k in out:
             out[k] += p[k]
+        for c, v in p['class_counts'].items():
+            classes[c] = classes.get(c, 0) + v
         maxdepth = max(maxdepth, p['maxdepth'])
         if len(samples) < 6:
             samples.extend(p['samples'][:1])
         for f in p['failures']:
             failures.setdefault(f['key'], f)
-    order = lambda f: (len(f['input']['markdown']), f['input']['markdown'], f['input']['L'] or 0, f['key'])  # noqa: E731
+    order = ORDER
     fl = sorted(failures.values(), key=order)
     # minimise the smallest generated failures of every (contract, class) -- bounded work
     todo, per = [], {}
@@ -330,10 +360,6 @@ def run(tier, seed, workers):
     fl = sorted(failures.values(), key=order)
     for f in fl:
         f.pop('gen', None)
-    classes = {}
-    for f in fl:
-        c = '%s|%s' % (f['contract'], f['class'])
-        classes[c] = classes.get(c, 0) + 1
     out.update({
         'domain': ('STACKS: all container stacks of depth 0..%d over the prefixes %r around the paragraph '
                    '"aaa bbb ccc ddd" (%d documents) x L in 1..%d; DOCS: %d mdgen documents (modes reflow / '
@@ -350,7 +376,7 @@ def run(tier, seed, workers):
         'distinct_nontrivial': out.pop('nontrivial'),
         'exhaustive': False,
         'samples': samples[:6],
-        'failures_total': len(fl),
+        'failures_total': out['failing_cases'],
         'class_counts': classes,
         'failures': fl[:MAX_FAILURES],
         'elapsed_s': round(t.s(), 1),
